@@ -10,6 +10,7 @@ import (
 	"os"
 	"os/exec"
 	"path/filepath"
+	"regexp"
 	"runtime"
 	"runtime/pprof"
 	"sort"
@@ -93,7 +94,7 @@ func runCase(c Case) caseResult {
 		if c.Sc.Check != nil {
 			m2 = c.Sc.Check(r2)
 		}
-		if r1.TraceHash() != r2.TraceHash() || m1 != m2 || !containsSig(m1, firstLine(v.Msg)) {
+		if r1.TraceHash() != r2.TraceHash() || normStack(m1) != normStack(m2) || !containsSig(m1, firstLine(v.Msg)) {
 			cr.Infra = fmt.Sprintf("scenario %s: violation %q did not replay deterministically (%q / %q)", c.Sc.Name, firstLine(v.Msg), firstLine(m1), firstLine(m2))
 			continue
 		}
@@ -108,6 +109,12 @@ func runCase(c Case) caseResult {
 	cr.Wall = time.Since(t0).Seconds()
 	return cr
 }
+
+// normStack blanks what differs between two runs of the same schedule in a Go stack dump attached to a
+// message: argument and pc addresses, goroutine numbers.
+var reAddr = regexp.MustCompile(`0x[0-9a-f]+|goroutine [0-9]+`)
+
+func normStack(m string) string { return reAddr.ReplaceAllString(m, "?") }
 
 // containsSig reports whether check output m (possibly a MULTI message) has a
 // violation whose signature is sig.
